@@ -6,6 +6,14 @@ props = [json.loads(l)["id"] for l in open(os.path.join(ROOT, "properties.jsonl"
 
 # id -> (level category, technique, level text, level note, design ref)
 CLAIMED = {
+ "C01": ("exploration", "differential testing of generated well-scoped programs: compiled bytecode on the real VM vs. an independent reference interpreter (proptest-driven, shrinking whole programs)",
+         "Whole programs (functions, closures, loops, early returns, static/dynamic/native calls, tables, submodule) are generated well-scoped by construction and run both through compile+VM and through a reference AST interpreter that shares no code or representation with cao-lang; outcome kind, all globals read by name and the host-call log must agree exactly. Class coverage (calls above other frames, loops with locals, return in loop, dynamic calls, table ops, >16 globals) is measured and has floors. Search, not proof.",
+         "Trusts the reference interpreter (src/refsem.rs) as the meaning of the card language; situations the language leaves undefined are discarded by the reference, never guessed. No collection runs (256 MiB limit).",
+         "DESIGN.md section 4, C01"),
+ "C06": ("exploration", "differential testing against a by-reference-cell reference interpreter with a closure-biased program generator (proptest-driven)",
+         "Same differential as C01 with a generator that creates closures in frames above other values, in loop bodies, nested, in a submodule, and calls each stored closure twice around a write to a visible variable (also through re-entering natives); every closure body logs a unique tag so a wrong body is visible; the reference uses shared Rc cells with a fresh cell per scope entry.",
+         "Same trusted base as C01.",
+         "DESIGN.md section 4, C06"),
  "C07": ("exploration", "proptest-driven model-based testing of table operation histories against an insertion-ordered Vec model (host API path)",
          "Random histories (<=120 ops) over 1-4 aliased tables through the host API (insert/get/append/pop/remove/len/nth_key/iter/keys), keys chosen to collide in the table's hash part at every capacity of its growth sequence and to probe value equality (fresh string objects per lookup, ints/reals/nil, reserved-hash ints); a Vec<(key,value)> model is compared after every operation on every table: length, full iteration order, keys(), nth_key and get of every present key. Search, not proof; the script-card path is covered by the program-level checks, not here.",
          "Trusts the 20-line Vec model; memory limit raised so that no collection interferes (GC is C02's subject).",
